@@ -22,10 +22,11 @@ theorem C14_no_pending_start_while_running (s : PState) (h : Reach s) (c : Uuid)
     (s.out i = some (c, false) → s.out j = some (c, false) → i = j) :=
   ⟨(Inv_reach h).m2 c i j, (Inv_reach h).m3 c i j⟩
 
-/-- Whenever the scheduler's `StartContainer(c)` is accepted, `c` has no process on any instance
-and no other start of `c` is pending. -/
-theorem C14_start_only_when_free (s t : PState) (h : Reach s) (i : Nat) (c : Uuid) (w : Worker)
-    (h1 : s.phase = .scheduling) (h2 : s.lastKillFalse = some c) (_h3 : s.wk i = some w) :
+/-- In every state in which the scheduler's `StartContainer(c)` can be accepted (its previous call
+was `KillContainer(c) = false`, the guard of `Step.schedStart`), `c` has no process on any
+instance and no other start of `c` is pending. -/
+theorem C14_start_only_when_free (s : PState) (h : Reach s) (c : Uuid)
+    (h2 : s.lastKillFalse = some c) :
     (∀ j, c ∉ s.procs j) ∧ (∀ j, s.out j ≠ some (c, false)) :=
   (Inv_reach h).kf c h2
 
